@@ -234,6 +234,22 @@ def preserved(before, after, kw):
     return bad
 
 
+def emptied(before, kw):
+    """types of the snapshot that the visibility predicate `kw` leaves without any member / field (from the snapshot alone)"""
+    ht = set(kw.get("hidden_types", ()))
+    hf = set(kw.get("hidden_fields", ())) | set(kw.get("hidden_input_fields", ()))
+    out = []
+    for name, t in before["types"].items():
+        if name in ht:
+            continue
+        if t["kind"] == "union" and t["members"] and all(m in ht for m in t["members"]):
+            out.append(name)
+        fields = t.get("fields") if t["kind"] in ("object", "interface") else t.get("input_fields") if t["kind"] == "input" else None
+        if fields and all((name, f["name"]) in hf or f["type"].strip("[]!") in ht for f in fields):
+            out.append(name)
+    return out
+
+
 def check(tier, seed):
     run = Run("C14", tier, seed)
     rnd = random.Random(seed)
@@ -247,6 +263,13 @@ def check(tier, seed):
         try:
             result = fn(source)
         except Exception as e:
+            from py_gql.exc import SchemaValidationError
+            gone = emptied(before, kw)
+            if isinstance(e, SchemaValidationError) and gone:
+                # hiding every member of a union / every field of a type cannot give a valid schema: refusing with the library's validation
+                # error is the specified behaviour, not a case of the property (which speaks about operations whose result is a schema)
+                run.cov.setdefault("refused_compositions", []).append({"operation": label, "history": history, "emptied": gone})
+                return None
             run.violation("schema-op:never-raises-on-valid-input", "%s raised %r" % (label, e), dict(w, exc=type(e).__name__, first_in_history=not history), True)
             return None
         nontrivial += 1
